@@ -12,8 +12,11 @@ CHECKS = [
              "(commit/open/check of one polynomial; completeness of the dot-product argument for every matrix, point, tape and challenge) and "
              "the inner-product argument (trim/commit/open/succinct_check/check of any list of polynomials at one point, degree bounds and hiding "
              "included; end-to-end completeness for all sponge challenges and all nonzero round challenges). Hyrax and IPA group elements are "
-             "modelled as coefficient vectors over the published key (generic-group view). IPA/Hyrax batch and combination paths and the "
-             "code-based schemes are judged by the implementation-level completeness oracle only."},
+             "modelled as coefficient vectors over the published key (generic-group view). The linear codes (Ligero univariate / multilinear, Brakedown) are modelled at the trait "
+             "level: open / check over a list of polynomials on the threaded transcript, the default batch and combination functions instantiated "
+             "with them; theorems C01_lincode_list_complete, C01_lincode_batch_complete and, for ANY scheme, C01_default_batch_complete; all their "
+             "single / batch / combination flows are compared with the library. Hyrax, IPA and PST13 batch and combination flows are modelled and "
+             "compared as well (C05, C06)."},
     {"property_id": "C16",
      "text": "Coq theorems (unbounded): every LinearCombination operator and every operator sequence acts on values as the corresponding arithmetic; "
              "evaluate_query_set maps exactly the queried (label, point) keys to the polynomial's value; SuccinctCheckPolynomial::evaluate equals Horner "
@@ -52,8 +55,10 @@ CHECKS += [
              "batch_open/batch_check as a generic Coq function of the scheme's own open/check (theorem: verdict = conjunction of the group verdicts in "
              "order on the shared transcript; wrong proof count aborts), instantiated with Hyrax; IPA's own batch_check (theorem: accepts for any "
              "randomizers when every group passes, for proofs whose final key matches their check polynomial) and PST13's own batch_check "
-             "(theorem: residual = randomizer-weighted sum of the single-point residuals), both with the default batch_open. All their batch "
-             "flows and batch mutations are compared with the library." + GENERIC},
+             "(theorem: residual = randomizer-weighted sum of the single-point residuals), both with the default batch_open. Sonic's own batch_check "
+             "(theorems: the value compared with zero is the randomizer-weighted sum of the single-check residuals of the groups; all-true accepts; "
+             "one false group with a non-zero randomizer rejects). The default functor is also instantiated with the linear-code model (Ligero, "
+             "Brakedown). All their batch flows and batch mutations are compared with the library." + GENERIC},
     {"property_id": "C10",
      "text": "Coq theorems: the KZG10 check as coded accepts iff e(C - vG - rv*gammaG, H) = e(W, betaH - zH); honest proofs satisfy it; every "
              "component (value, point, commitment, witness, blinding value, vk.g, vk.beta_h) moves the residual by an explicit term; the Marlin check "
@@ -76,15 +81,18 @@ CHECKS += [
 ]
 CHECKS += [
     {"property_id": "C04",
-     "text": "Coq theorems (Marlin model): committer and prover refuse a polynomial whose degree exceeds its declared bound, a bound the key was not "
+     "text": "Coq theorems (Marlin model; Sonic and IPA: see the note): committer and prover refuse a polynomial whose degree exceeds its declared bound, a bound the key was not "
              "trimmed for, a bound above the maximum degree, and a degree above the supported degree; trim publishes shift elements g*beta^(D-d) for "
              "exactly the sorted de-duplicated enforced bounds; a commitment made under d' and presented under d is accepted exactly when "
              "(g*beta^(D-d) - g*beta^(D-d'))*v*xi'*h = 0; a bound label without its shifted part aborts, an unknown bound is an error; with the right "
              "label the honest proof is accepted (C01_marlin_complete). Correspondence: extracted Marlin model vs library on honest bounded/hiding "
              "transcripts, out-of-domain commits (error class compared), relabelled / dropped / swapped degree-bound parts (decision compared).",
-     "note": COMMON_NOTE + " Sonic and IPA: same generated scenarios (relabel / drop / swap / out-of-domain requests), judged by implementation-level "
-             "oracles with explicit side conditions (non-constant polynomial, non-zero value, point not a small root of unity, bound below the "
-             "maximum) - supporting search, not proof, until their models land. The 'accepted only if degree <= d' direction is the AGM statement of "
+     "note": COMMON_NOTE + " Sonic and IPA are modelled too (trim / commit / open / check with bounds; every relabel / drop / swap / out-of-domain "
+             "scenario is compared with the library) and have their own theorems: C04_sonic_relabelled_bound(s) (the same commitment, value and "
+             "proof under two bounds force c*c0*(sp-sp') = 0), C04_sonic_unsupported_bound_refused, C04_ipa_relabelled_bound(s_tie_values) (the "
+             "verifier's combined commitment depends on the presence, not the value, of a claimed bound; b vs b' forces nxt*(z^(d-b)-z^(d-b'))*v = 0), "
+             "C04_ipa_bound_presence_mismatch_aborts, C04_ipa_bound_above_key_aborts, C04_ipa_commit_refuses_bad_bound; implementation-level "
+             "oracles with explicit side conditions support the search. The 'accepted only if degree <= d' direction is the AGM statement of "
              "C03 for the shifted commitment and is not proved in general (DESIGN.md section 6)."},
 ]
 CHECKS += [
@@ -102,8 +110,10 @@ CHECKS += [
              "is not yet a theorem. The trait's default open_combinations/check_combinations is modelled once, generically in the scheme "
              "(theorem C06_default_check_combinations_every_claim: every equation at every one of its points is checked against the transmitted "
              "evaluations and the default batch check runs on exactly those), and instantiated with Hyrax, whose combination flows are compared. "
-             "Sonic, IPA, PST13 (override paths) and Ligero, Brakedown (default path at the trait level) are exercised by the same "
-             "scenarios and judged by implementation-level oracles (supporting search)."},
+             "Sonic's own open_combinations / check_combinations are modelled and compared (theorems C06_sonic_*: honest commitment triple of "
+             "the combination, bounded single term, policy, constants, combined commitment = weighted sum), as are IPA's and PST13's (C03 / C05), "
+             "and the default path is instantiated with the linear-code model, so the combination flows and mutations of Ligero and Brakedown are "
+             "compared too; implementation-level oracles support the search."},
     {"property_id": "C11",
      "text": "Coq theorems (sponge modelled as the tape of its outputs): for histories of any length of multi-polynomial openings the verifier accepts "
              "every proof and ends on exactly the prover's tape position; one operation with degree bounds and hiding consumes the same challenges on "
